@@ -9,6 +9,7 @@ import Driver.TreeDrv
 import Driver.ProtocolDrv
 import Driver.ClimbDrv
 import Driver.LexDrv
+import Driver.DeclaratorsDrv
 /-! `psymodel <component>`: reads one case per line on stdin, answers one line per case. -/
 
 partial def loop (h : IO.FS.Stream) (out : IO.FS.Stream) (f : String → String) : IO Unit := do
@@ -31,5 +32,6 @@ def main (args : List String) : IO UInt32 := do
   | ["tree"] => loop stdin stdout Driver.TreeDrv.handle; return 0
   | ["protocol"] => loop stdin stdout Driver.ProtocolDrv.handle; return 0
   | ["lex"] => loop stdin stdout Driver.LexDrv.handle; return 0
+  | ["declarators"] => loop stdin stdout Driver.DeclaratorsDrv.handle; return 0
   | ["climb"] => loop stdin stdout Driver.ClimbDrv.handle; return 0
   | _ => IO.eprintln "usage: psymodel <component>"; return 2
